@@ -47,6 +47,7 @@ def main():
     if a.only and not os.environ.get("VT_OUT"):
         os.environ["VT_OUT"] = str(HERE / "out" / "partial")  # debugging runs never overwrite the evidence file
     prop = a.prop.upper()
+    os.environ["VT_TIER"] = a.tier
     if a.replay:
         sys.exit(do_replay(prop, a.replay))
     seed = int(os.environ.get("VERIF_SEED", "0") or 0)
